@@ -42,6 +42,7 @@ import (
 type scenario struct {
 	Name      string
 	API       string // "json" (PostAndParseWithRetry) or "logclient" (LogClient.AddChain)
+	Pre       bool   // logclient: callers with an odd index use AddPreChain
 	Callers   int
 	Ctx       []string // per caller: "none", "cancel", "deadline2s", "deadline10s"
 	MaxBad    int      // non-ok answers offered per caller before only "ok" remains
@@ -59,6 +60,7 @@ type answer struct {
 	body    string // "ok", "badjson", "text"
 	neterr  bool
 	redir   bool
+	same    bool // redir: the Location is the request's own URL
 	timeout bool
 	viaGET  bool // answer to the GET that a redirect turned the POST into: never a success
 }
@@ -72,6 +74,7 @@ var menu = []answer{
 	{name: "429ra2", status: 429, ra: "2", body: "text"},
 	{name: "503", status: 503, body: "text"},
 	{name: "503ra5", status: 503, ra: "5", body: "text"},
+	{name: "503ra0", status: 503, ra: "0", body: "text"}, // a server-directed delay of nothing: still no licence to wait longer later
 	{name: "429ra300", status: 429, ra: "300", body: "text"}, // more than the 128 s cap: must not stick to later answers
 	{name: "503date+3", status: 503, ra: "date+3", body: "text"},
 	{name: "503date-10", status: 503, ra: "date-10", body: "text"},
@@ -80,6 +83,7 @@ var menu = []answer{
 	{name: "404", status: 404, body: "text"},
 	{name: "500", status: 500, body: "text"},
 	{name: "301", status: 301, redir: true, body: "text"},
+	{name: "303same", status: 303, redir: true, same: true, body: "text"}, // redirect to the very URL that was posted to (cookie-bounce front ends)
 	{name: "neterr", neterr: true},
 	{name: "nettimeout", neterr: true, timeout: true}, // a transport-level timeout (errors.Is(err, context.DeadlineExceeded)) while the caller's context is live
 }
@@ -95,6 +99,7 @@ type event struct {
 	ok     bool // ret: success
 	got    string
 	idx    int
+	path   string
 }
 
 type recorder struct {
@@ -148,7 +153,16 @@ func (g *gatedRT) RoundTrip(req *http.Request) (*http.Response, error) {
 		req.Body.Close()
 	}
 	c := callerOf(req, body)
-	g.rec.add(event{caller: c, kind: "req", method: req.Method})
+	g.rec.add(event{caller: c, kind: "req", method: req.Method, path: req.URL.Path})
+	// 1 ms of transport latency: a retry sent with zero jitter then needs the clock to move, like every
+	// other retry, so the shape of the decision tree does not depend on the (unowned) jitter value
+	lat := time.NewTimer(time.Millisecond)
+	select {
+	case <-lat.C:
+	case <-req.Context().Done():
+		lat.Stop()
+		return nil, req.Context().Err()
+	}
 	v, err := g.env.AskCtx(req.Context(), req.Method+" caller="+c, "http", rtInfo{c, req.Method})
 	if err != nil {
 		return nil, err
@@ -165,6 +179,8 @@ func (g *gatedRT) RoundTrip(req *http.Request) (*http.Response, error) {
 	case "2":
 		h.Set("Retry-After", "2")
 		ev.askAt = gate.Now() + 2*time.Second
+	case "0":
+		h.Set("Retry-After", "0")
 	case "5":
 		h.Set("Retry-After", "5")
 		ev.askAt = gate.Now() + 5*time.Second
@@ -201,7 +217,11 @@ func (g *gatedRT) RoundTrip(req *http.Request) (*http.Response, error) {
 		b = ""
 	}
 	if a.redir {
-		h.Set("Location", "/redirected?c="+c)
+		if a.same {
+			h.Set("Location", req.URL.String())
+		} else {
+			h.Set("Location", "/redirected?c="+c)
+		}
 	}
 	return &http.Response{StatusCode: a.status, Status: fmt.Sprintf("%d %s", a.status, http.StatusText(a.status)), Header: h,
 		Body: io.NopCloser(strings.NewReader(b)), Request: req, Proto: "HTTP/1.1", ProtoMajor: 1, ProtoMinor: 1}, nil
@@ -273,7 +293,11 @@ func runScenario(sc scenario) func(t *testing.T, x *gate.Exec) {
 				got := ""
 				if lc != nil {
 					var sct *ct.SignedCertificateTimestamp
-					sct, err = lc.AddChain(c.ctx, []ct.ASN1Cert{{Data: []byte(c.name)}})
+					if sc.Pre && i%2 == 1 || sc.Pre && sc.Callers == 1 {
+						sct, err = lc.AddPreChain(c.ctx, []ct.ASN1Cert{{Data: []byte(c.name)}})
+					} else {
+						sct, err = lc.AddChain(c.ctx, []ct.ASN1Cert{{Data: []byte(c.name)}})
+					}
 					if err == nil {
 						got = fmt.Sprintf("sct ts=%d", sct.Timestamp)
 					} else if sct != nil {
@@ -456,6 +480,19 @@ func oracle(sc scenario, x *gate.Exec, rec *recorder, callers []*caller) {
 			x.Violation("no-return", "caller %s never returned (answers %v)", c.name, sum)
 			continue
 		}
+		// a submission goes to the endpoint of its kind, every time
+		if sc.API == "logclient" {
+			ci := int(c.name[0] - 'A')
+			wantPath := "/log/ct/v1/add-chain"
+			if sc.Pre && (ci%2 == 1 || sc.Callers == 1) {
+				wantPath = "/log/ct/v1/add-pre-chain"
+			}
+			for _, e := range mine {
+				if e.kind == "req" && e.method == http.MethodPost && e.path != wantPath {
+					x.Violation("submission-sent-to-wrong-endpoint", "caller %s: POST to %s, want %s", c.name, e.path, wantPath)
+				}
+			}
+		}
 		// walk the per-caller timeline
 		var lastAns *event
 		for i := range mine {
@@ -611,6 +648,8 @@ func TestCheck(t *testing.T) {
 		{Name: "1 caller, LogClient.AddChain, cancellable", API: "logclient", Callers: 1, Ctx: []string{"cancel"}, MaxBad: k, Bound: b1},
 		{Name: "2 callers sharing a client, json", API: "json", Callers: 2, Ctx: []string{"cancel", "none"}, MaxBad: k - 1, Bound: b2},
 		{Name: "2 callers sharing a LogClient, one with deadline", API: "logclient", Callers: 2, Ctx: []string{"deadline10s", "cancel"}, MaxBad: k - 1, Bound: b2},
+		{Name: "1 caller, LogClient.AddPreChain, deadline 10s", API: "logclient", Pre: true, Callers: 1, Ctx: []string{"deadline10s"}, MaxBad: k, Bound: b1 - 1},
+		{Name: "2 callers sharing a LogClient, AddChain and AddPreChain", API: "logclient", Pre: true, Callers: 2, Ctx: []string{"cancel", "none"}, MaxBad: k - 1, Bound: b2 - 1},
 	}
 	// a server that keeps failing: the exponential window reaches its 128 s cap, and callers sharing
 	// the client keep being woken by each other's failures (an infinite response sequence cut at
@@ -628,8 +667,9 @@ func TestCheck(t *testing.T) {
 		scenario{Name: "2 callers sharing a client, prompt server keeps answering 503", API: "json", Callers: 2, Ctx: []string{"none", "none"}, MaxBad: kb, Bound: bb - 1, Default: "503", Prompt: true, Seed: 1},
 		scenario{Name: "2 callers sharing a client, prompt server keeps answering 503, other jitter", API: "json", Callers: 2, Ctx: []string{"none", "none"}, MaxBad: kb, Bound: bb - 1, Default: "503", Prompt: true, Seed: 7},
 		scenario{Name: "3 callers sharing a LogClient, prompt server, network keeps failing", API: "logclient", Callers: 3, Ctx: []string{"none", "none", "none"}, MaxBad: kb - 2, Bound: bb - 1, Default: "neterr", Prompt: true, Seed: 3},
+		scenario{Name: "1 caller, json, server keeps answering 503 with Retry-After: 0", API: "json", Callers: 1, Ctx: []string{"cancel"}, MaxBad: kb, Bound: bb, Default: "503ra0"},
 		scenario{Name: "3 callers sharing a client, server keeps answering 429", API: "json", Callers: 3, Ctx: []string{"none", "none", "none"}, MaxBad: kb - 2, Bound: bb - 1, Default: "429"})
-	r.Rule("for each scenario, every choice vector of total deviation cost <= bound (a deviation = answering a pending request other than the canonically first, any answer other than a parsable 200 out of a 18-answer menu, a slow server, a cancellation at one of 4 instants); executions run to completion under virtual time. distinct_nontrivial = distinct observed outcomes (per-caller answer sequence and result)")
+	r.Rule("for each scenario, every choice vector of total deviation cost <= bound (a deviation = answering a pending request other than the canonically first, any answer other than a parsable 200 out of a 20-answer menu, a slow server, a cancellation at one of 4 instants); executions run to completion under virtual time. distinct_nontrivial = distinct observed outcomes (per-caller answer sequence and result)")
 	r.Assume("client jitter (math/rand, 0..249 ms) is not owned: oracles use only the bounds the property states; requests arriving within 300 ms of each other are presented together",
 		"interleavings are explored at the granularity of HTTP round trips; lock-level interleavings inside the shared backoff are covered by the free-running race pass")
 	var summary []map[string]any
